@@ -5,7 +5,7 @@ from typing import Any
 
 import z3
 
-from pyvc.contract import (ADTS, BOOL, INT, NEWOBJ, OBJ, OPT, ROWS, ROWS_UPTO, STR, Sort, TUP, contract, inline, lemma, shape)
+from pyvc.contract import (ADTS, BOOL, INT, NEW, NEWOBJ, OBJ, OPT, ROWS, ROWS_UPTO, STR, Sort, TUP, contract, inline, lemma, shape)
 from pyvc.spec import (And, Iff, Implies, Ite, Not, Or, od_get, od_has, od_len, od_stable, od_touched, od_unchanged, sel,
                        which_is, which_unset)
 
@@ -269,6 +269,8 @@ def other_slots_untouched(new: Any, old: Any, slot: Any, prefixes: tuple = ("s",
     """every oneof group other than the one of `slot` keeps its tag and its (flat) content"""
     out = []
     for j, (oneof, p) in ONEOF_OF_SLOT.items():
+        if not new._obj().has("$which:" + oneof):
+            continue          # RdfGraphStart: a graph group only
         same = And(which_tag(new, oneof) == which_tag(old, oneof),
                    getattr(new, f"{p}_bnode") == getattr(old, f"{p}_bnode"),
                    _cf(new, f"{p}_iri", "prefix_id", 0) == _cf(old, f"{p}_iri", "prefix_id", 0),
@@ -675,6 +677,9 @@ class _encode_triple:
 
     def on_raise(e): return {"tables-still-well-formed": wf_te(e.term_encoder)}
 
+    def lists(e):
+        return [dict(label="rows", when=True, set={"result": [..., NEW(MSG("RdfStreamRow"), "triple_row")]})]
+
     def ensures(e):
         E, O = e.term_encoder, e.old.term_encoder
         ts = list(e.terms.items)
@@ -772,6 +777,9 @@ class _encode_quad:
 
     def on_raise(e): return {"tables-still-well-formed": wf_te(e.term_encoder)}
 
+    def lists(e):
+        return [dict(label="rows", when=True, set={"result": [..., NEW(MSG("RdfStreamRow"), "quad_row")]})]
+
     def ensures(e):
         E, O = e.term_encoder, e.old.term_encoder
         ts = list(e.terms.items)
@@ -844,6 +852,9 @@ if _os.environ.get("PYVC_WIP") != "1":
 
         def on_raise(e): return {"tables-still-well-formed": wf_te(e.term_encoder)}
 
+        def lists(e):
+            return [dict(label="rows", when=True, set={"result": [..., NEW(MSG("RdfStreamRow"), "quad_row")]})]
+
         def ensures(e):
             E, O = e.term_encoder, e.old.term_encoder
             ts = list(e.terms.items)
@@ -872,6 +883,9 @@ class _encode_ns:
     modifies = ["term_encoder.names", "term_encoder.prefixes"]
 
     def requires(e): return wf_te(e.term_encoder)
+
+    def lists(e):
+        return [dict(label="rows", when=True, set={"result": [..., NEW(MSG("RdfStreamRow"), "namespace_row")]})]
 
     def ensures(e):
         E, O = e.term_encoder, e.old.term_encoder
